@@ -270,11 +270,19 @@ def run_impl_one_by_one(progs, base):
     """A shard on which the harness crashed (abort, stack overflow) or did not finish: run its
     programs one at a time so that the culprit is identified; it gets the output `(missing ...)`."""
     outs = []
+    timeouts = 0
     for k, prog in enumerate(progs):
+        if timeouts >= 3:
+            # an implementation that hangs: three culprits are enough for a replay, the rest of the
+            # shard is not run (it is judged as not observed, like any missing output)
+            outs.append("(notrun \"the implementation timed out on 3 programs of this shard\")")
+            continue
         f1, f2 = base + ".one.sexp", base + ".one.impl"
         with open(f1, "w") as f:
             f.write(prog + "\n")
-        rc, out = run_side(HARNESS, "run", f1, f2, timeout=60)
+        rc, out = run_side(HARNESS, "run", f1, f2, timeout=30)
+        if rc == 124:
+            timeouts += 1
         line = ""
         if rc == 0:
             try:
@@ -297,7 +305,7 @@ def run_programs(progs, workdir, shards=16, want_model=True, tier="quick"):
         base = os.path.join(workdir, "s%d" % k)
         with open(base + ".sexp", "w") as f:
             f.write("\n".join(chunks[k]) + "\n")
-        rc, out = run_side(HARNESS, "run", base + ".sexp", base + ".impl", timeout=1500)
+        rc, out = run_side(HARNESS, "run", base + ".sexp", base + ".impl", timeout=(240 if tier == "quick" else 1500))
         if rc == 3:
             return k, "harness rc=%d %s" % (rc, out[-300:])
         if rc != 0:
@@ -312,6 +320,9 @@ def run_programs(progs, workdir, shards=16, want_model=True, tier="quick"):
             menv = dict(os.environ)
             menv["VERIF_C05_K"] = "9" if tier == "thorough" else "6"
             menv["VERIF_C05_FUEL"] = "600" if tier == "thorough" else "400"
+            menv["VERIF_C05V_SALTS"] = "8" if tier == "thorough" else "4"
+            menv["VERIF_C05V_NFLAT"] = "3000" if tier == "thorough" else "1200"
+            menv["VERIF_C05V_NSRC"] = "600" if tier == "thorough" else "300"
             rc, out = subprocess.run([MODEL, "monitor", base + ".sexp", base + ".impl", base + ".mon"],
                                      stdout=subprocess.PIPE, stderr=subprocess.STDOUT, text=True, env=menv,
                                      timeout=3000, preexec_fn=_unlimit_stack).returncode, ""
@@ -361,6 +372,7 @@ def pipeline(seed, tier):
     for p, m in gen.gen_chains_random(seed + 1, sz["chains"]) + gen.gen_chains_exhaustive(seed + 2, sz["chain_exh"]):
         batch.append((ser(p), m))
     for p, m in gen.gen_skeletons(sz["skel"]) + (gen.gen_name_triples() if sz["names"] else []) + gen.gen_tiny(sz["tiny"]) \
+            + gen.gen_retmix({"quick": 6, "search": 2}.get(tier, 1)) \
             + (gen.gen_deep() if tier == "thorough" else gen.gen_deep()[:1] + gen.gen_deep()[3:4]):
         batch.append((ser(p), m))
     # the same programs as an AST built with Ident::new has them: every identifier at (1, 0)
